@@ -108,7 +108,8 @@ func runC20(c *mon.Ctx) {
 			variants := []struct {
 				in []byte
 				ps int
-			}{{big, 188 + k}, {s.Bytes[:188], 188}}
+			}{{big, 188 + k}, {s.Bytes[:188], 188}, {s.Bytes[:188], 0}, {refts.Reframe(s.Bytes, 16, func(p, j int) byte { return byte(p + j) }), 0}}
+			// (the last two: auto-detection on inputs it cannot make sense of - every call fails, before and after the Rewind alike)
 			for _, v := range variants {
 				sv := &gen.Stream{Units: s.Units, Packets: s.Packets, Owner: s.Owner, Bytes: v.in}
 				for _, api := range []string{"data", "packet"} {
